@@ -199,6 +199,12 @@ func (s *InterfaceType) SignatureIDL() string {
 // TypeName returns a statement to be inserted when the type is to be
 // declared.
 func (s *InterfaceType) TypeName() *jen.Statement {
+	if s.PackageName == "" {
+		// an interface of the package being generated: a qualified
+		// name with an empty path would be rendered as an import of
+		// "" when the file is given a package path.
+		return jen.Id(objName(s.Name))
+	}
 	return jen.Qual(s.PackageName, objName(s.Name))
 }
 
